@@ -123,6 +123,7 @@ class Replay:
         self.buf = []
         self.ndocs = 0
         self.nel = 0
+        self.nsamp = 0
 
     def on_line(self, val):
         if 'pool' in val:
@@ -150,9 +151,10 @@ class Replay:
             return
         for p in self.pending:
             out, ncmp, nontriv, ndocs, samp = p.get()
-            if samp:
+            if samp and self.nsamp < 2:
+                self.nsamp += 1
                 samp['cfg'] = self.label
-                chk.sample(samp, cap=6)
+                chk.sample(samp, cap=7)
             chk.count(ncmp, traces=ndocs)
             chk.add_distinct(nontriv)
             for rec in out:
@@ -175,8 +177,11 @@ def report(chk, label, rec):
         label, css, html, ('raises ' + got) if kind == 'raises' else ('selected' if got else 'not selected'),
         'selected' if exp else 'not selected')
     if not gated:
-        if len(chk.drift) < 400:
-            chk.drift.append({'cfg': label, 'zone': 'underdetermined (DESIGN 5): not gated', 'selector': css,
+        zone = ('number string outside -?digits(.digits)? that some reading accepts' if typ in ('number', 'range') else
+                'type keyword case in an XML document' if '{xml' in html and typ not in ('time', 'datetime-local') else
+                'time with seconds / local date-time with seconds or space separator')
+        if len(chk.drift) < 2000:
+            chk.drift.append({'cfg': label, 'zone': zone + ' (not gated)', 'selector': css,
                               'element': html, 'observed': got, 'html_reading': exp})
         else:
             chk.drift.append(None)
@@ -265,10 +270,13 @@ def typeless_probe(chk):
                 chk.violation('%s|<input max="5" value="7">' % css,
                               '%s selects <input max="5" value="7"> (no type attribute: not a range type)' % css,
                               {'cfg': 'typeless', 'selector': css, 'observed': True, 'expected': False})
+            chk.notes.setdefault('typeless_input', {})[css] = 'returned %r' % (r,)
         except Exception as e:
-            chk.drift.append({'cfg': 'typeless', 'zone': 'exception is C08 (F08), not gated by C18', 'selector': css,
-                              'element': '<input max="5" value="7">',
-                              'observed': '%s: %s' % (type(e).__name__, str(e).split('\n')[0])})
+            msg = '%s: %s' % (type(e).__name__, str(e).split('\n')[0])
+            chk.notes.setdefault('typeless_input', {})[css] = 'raised ' + msg
+            chk.drift.append({'cfg': 'typeless', 'zone': 'input without a type attribute: the exception is C08 (F08) (not gated)',
+                              'selector': css, 'element': '<input max="5" value="7">', 'observed': msg,
+                              'html_reading': False})
 
 
 # ---------------------------------------------------------------------------
@@ -415,6 +423,70 @@ def rand_c18_selectors(rng):
     return [pool[0], pool[1]] + rng.sample(pool[2:], 2)
 
 
+def _validate_one(args):
+    path, n = args
+    try:
+        res = tlc.run('Trace_C18', workers=1, env={'TRACE_FILE': path}, timeout=3000, heap='1g')
+    except tlc.TLCError as e:
+        return 0, 0, [], 0, str(e)[-1500:]
+    rej, nopen = [], 0
+    for t in res.tuples:
+        m = trace._RE_REJECT.match(t)
+        if m:
+            rej.append((m.group(1), m.group(2)))
+        elif t.startswith('<<"OPEN"'):
+            nopen += 1
+    err = None
+    if res.violation:
+        err = 'trace not fully consumed / TLC error: %s' % res.violation
+    elif res.distinct != n + 1:
+        err = 'expected %d states, got %d' % (n + 1, res.distinct)
+    return res.distinct, res.generated, rej, nopen, err
+
+
+def validate_trace(chk, lines, label, nbatches=16):
+    """harness.trace.validate for Trace_C18: same verdicts, and counts the events the trace spec left
+    ungated (PrintT(<<"OPEN", id>>)); at most 8 single-worker TLC instances side by side."""
+    import tempfile
+    events = {}
+    for l in lines:
+        e = json.loads(l)
+        events[e['id']] = e
+    size = max(50, (len(lines) + nbatches - 1) // nbatches)
+    tmpd = tempfile.mkdtemp(prefix='verif_trace_c18_')
+    rejected, nopen = [], 0
+    try:
+        files = []
+        for b in range(0, len(lines), size):
+            path = os.path.join(tmpd, 't%d.ndjson' % b)
+            with open(path, 'w') as f:
+                f.write('\n'.join(lines[b:b + size]) + '\n')
+            files.append((path, len(lines[b:b + size])))
+        ctx = mp.get_context('fork')
+        with ctx.Pool(min(8, len(files))) as pool:
+            results = pool.map(_validate_one, files)
+        for distinct, generated, rej, no, err in results:
+            if err:
+                chk.machinery('%s: %s' % (label, err))
+                continue
+            chk.coverage['states'] += distinct
+            chk.coverage['transitions'] += generated
+            rejected += rej
+            nopen += no
+    finally:
+        for f in os.listdir(tmpd):
+            os.remove(os.path.join(tmpd, f))
+        os.rmdir(tmpd)
+    chk.count(len(lines) - nopen, traces=len(lines))
+    for rid, exp in rejected:
+        e = events.get(rid, {})
+        chk.violation('%s|%s|%s' % (label, e.get('css'), rid),
+                      '%s: recorded select(%r) = %r%s is not what the specification admits (%s)' % (
+                          label, e.get('css'), e.get('res'), (' [' + e['exc'] + ']') if 'exc' in e else '', exp),
+                      {'cfg': label, 'selector': e.get('css'), 'event': e, 'spec_expected': exp})
+    return rejected, nopen
+
+
 def trace_part(chk, tier):
     rng = random.Random(common.SEED * 7919 + 18)
     ndocs, nmax = (260, 8) if tier == 'quick' else (2600, 10)
@@ -426,14 +498,14 @@ def trace_part(chk, tier):
     if not lines:
         chk.machinery('trace: no events recorded')
         return
-    rejected = trace.validate(chk, lines, 'Trace_C18', 'trace-c18', batch=max(200, len(lines) // 16 + 1))
+    rejected, nopen = validate_trace(chk, lines, 'trace-c18', nbatches=16)
     nexc = sum(1 for l in lines if '"exc"' in l)
     e = json.loads(lines[0])
     chk.sample({'trace_event': {'css': e['css'], 'res': e['res'], 'nodes': len(e['doc']['parent']),
                                 'first_element': el_html(e['doc'], len(e['doc']['parent']))},
                 'cfg': 'trace-c18'}, cap=8)
     chk.notes['trace'] = {'documents': ndocs, 'events': len(lines), 'events_that_raised': nexc,
-                          'rejected': len(rejected)}
+                          'rejected': len(rejected), 'events_not_gated': nopen}
 
 
 # ---------------------------------------------------------------------------
@@ -466,8 +538,20 @@ def main(tier):
     except tlc.TLCError as e:
         chk.machinery(str(e)[-1500:])
     ndrift = len(chk.drift)
-    chk.drift = [x for x in chk.drift if x is not None]
-    chk.notes['ungated_disagreements'] = ndrift
+    kept = [x for x in chk.drift if x is not None]
+    zones = {}
+    for x in kept:
+        zones.setdefault(x['zone'], []).append(x)
+    chk.notes['ungated_disagreements'] = {'total': ndrift, 'by_zone': {z: len(v) for z, v in zones.items()}}
+    # the evidence file keeps the first 20: interleave the zones
+    order = []
+    k = 0
+    while len(order) < min(len(kept), 40):
+        for z in sorted(zones):
+            if k < len(zones[z]):
+                order.append(zones[z][k])
+        k += 1
+    chk.drift = order + kept[len(order):]        # same length; only the leading entries are shown
     return chk.finish()
 
 
